@@ -337,7 +337,8 @@ def r_protocol_corpus(d):
     waptop = cfg.get("protocols.wap.WAPProtocol", "waptop")
     sels = ["/", "", "/a b", "/x\ty", "\t", "/s\t", "/s\tq\t", "/s\t+", "/s\t!", "/s\t$", "/s\t!x", "/s\tq\t+", "/s\tq\t$x", "/s\ta\tb\t+",
             "GET / HTTP/1.0", "HEAD /x HTTP/1.1", "GET  / HTTP/1.0", "GET / HTTP/1.0 x", "GET /wap/x HTTP/1.0", "POST / HTTP/1.0", "GET / http/1.0",
-            "gemini://h/x", "Gemini://h/x", " gemini://h/", "h /p 0", "h /p 12", "h /p -1", "h /p x", "h  /p 0", "h /p 0 0", "h /p \u0662", "\x16/s", "h /\xe9 0"]
+            "gemini://h/x", "Gemini://h/x", " gemini://h/", "h /p 0", "h /p 12", "h /p -1", "h /p x", "h  /p 0", "h /p 0 0", "h /p \u0662", "\x16/s", "h /\xe9 0",
+            "h / +0", "h /f 1_0", "my notes 2_0_2_4", "h /p -0", "h /p \t5", "h /p 5 ", "h /p 0x10", "h /p 1e3", "h /p ٣", "h /p ²"]
     for line in sels:
         for tls in (False, True):
             req = line + "\r\n"
@@ -376,7 +377,48 @@ def r_getprotocol(d):
 
 
 @realiser("pygopherd/server.py::BaseServer.wrap_socket")
+def r_wrap_socket_real(d):
+    """Real socket pair: whether a connection is treated as TLS depends on the value of its first byte only, not on
+    when that byte arrives; the sniff consumes nothing."""
+    import socket, threading, time
+    import pygopherd.server as srv
+
+    class Ctx:
+        def wrap_socket(self, sock, server_side=False):
+            return types.SimpleNamespace(inner=sock, tls=True)
+
+    for first, delay in ((b"\x16\x03\x01", 0.0), (b"/sel\r\n", 0.0), (b"\x16\x03\x01", 2.2), (b"/sel\r\n", 2.2)):
+        a, b = socket.socketpair()
+        try:
+            def client():
+                time.sleep(delay)
+                try:
+                    a.sendall(first)
+                except OSError:
+                    pass
+            t = threading.Thread(target=client, daemon=True)
+            t.start()
+            server = types.SimpleNamespace(context=Ctx())
+            for k in dir(srv.BaseServer):
+                if not k.startswith("__") and not hasattr(server, k) and not callable(getattr(srv.BaseServer, k)):
+                    setattr(server, k, getattr(srv.BaseServer, k))
+            try:
+                res = srv.BaseServer.wrap_socket(server, b)
+            except Exception as e:  # noqa
+                return {"confirmed": True, "scenario": "wrap_socket raised on a live socket", "raised": repr(e)}
+            t.join()
+            is_tls = getattr(res, "tls", False)
+            left = b.recv(16, socket.MSG_PEEK)
+            if is_tls != (first[:1] == b"\x16") or left != first:
+                return {"confirmed": True, "scenario": "first byte %r sent %.1fs after connect" % (first[:1], delay), "treated_as_tls": is_tls, "bytes_left_readable": repr(left)}
+        finally:
+            a.close(); b.close()
+    return {"confirmed": None, "note": "TLS decision depends on the first byte only"}
+
+
 def r_wrap_socket(d):
+    if d.get("kind") == "standin":
+        return r_wrap_socket_real(d)
     import socket
     import pygopherd.server as srv
     m = d["model"]
@@ -487,7 +529,10 @@ def r_c01_audit(d):
     for k, v in m.items():
         if isinstance(v, str) and v and any(t in k for t in ("selector", "request", "name", "file", "elem")):
             cands.append(v)
-    cands += ["/..", "/../", "/a/../..", "/%2e%2e/", "/a|/../..", "/./..", "/..\\..", "/a.zip/../../"]
+    cands += ["/..", "/../", "/a/../..", "/%2e%2e/", "/a|/../..", "/./..", "/..\\..", "/a.zip/../../",
+              # compatibility characters that normalise to '.', '..' and '/' (NFKC): U+FF0E, U+2024, U+2025, U+FF0F
+              "/\uff0e\uff0e/secret", "/\u2025/secret", "/\u2024\u2024/secret", "/a/\uff0e\uff0e/\uff0e\uff0e/secret", "/\uff0e\uff0e\uff0fsecret",
+              "/secret", "/../secret", "/a/../../secret"]
     top = tempfile.mkdtemp(prefix="pyvc-c01-", dir="/var/tmp")
     root = os.path.join(top, "root")
     try:
@@ -544,6 +589,10 @@ def _handle_requests(cls):
     name = cls.__name__
     sels = ["/testfile.txt", "/nonexistent", "/", "/testarchive.zip"]
     out = []
+    if "Gemini" in name:
+        # malformed authorities / ports: answered with a status line, never an escaping exception
+        out.extend(["gemini://localhost:70x/testfile.txt\r\n", "gemini://localhost:99999/testfile.txt\r\n", "gemini://localhost:-1/testfile.txt\r\n",
+                    "gemini://[::1/testfile.txt\r\n", "gemini://localhost:/testfile.txt\r\n"])
     for s_ in sels:
         if "Gemini" in name:
             out.append("gemini://localhost%s\r\n" % s_)
@@ -654,7 +703,13 @@ def r_handle_faults(d):
                 except BaseException as e:  # noqa
                     raised = e
                 if raised is None:
-                    # the protocol swallowed the failure itself: the log must not show a foreign class
+                    # the protocol swallowed the failure itself: it must have logged it under the failure's own class ...
+                    fired = w.n > k
+                    own = type(injected).__name__
+                    if fired and d["kind"] == "standin" and not any(("EXCEPTION " + own) in l for l in logs):
+                        return {"confirmed": True, "request": req, "fail_at_write": k, "injected": repr(injected), "log": logs[-3:],
+                                "note": "the write failure was swallowed without a log record under its own error class"}
+                    # ... and the log must not show a foreign class
                     bad = [l for l in logs if "EXCEPTION" in l and not any(t in l for t in ("FileNotFound", "TimeoutError", "BrokenPipeError", "timeout", "OSError", "ConnectionResetError"))]
                     if bad and d["kind"] in ("standin", "raises", "on_raise"):
                         return {"confirmed": True, "request": req, "fail_at_write": k, "injected": repr(injected), "log": bad[:2], "note": "the failure was logged under a foreign error class"}
@@ -729,7 +784,12 @@ def r_dir(d):
         def mk(cls=DirHandler):
             hb.rootpath = None; hm.rootpath = None; hm.handlers = None
             st = os.stat(top)
-            return cls("/", "", None, cfg, st)
+            from pygopherd import testutil as _tu
+            try:
+                proto = _tu.get_testing_protocol("/\r\n", cfg)
+            except Exception:  # noqa
+                proto = None
+            return cls("/", "", proto, cfg, st)
 
         cachefile = os.path.join(top, cfg.get("handlers.dir.DirHandler", "cachefile"))
         h = mk(); h.prepare(); h.getdirlist()
@@ -755,6 +815,27 @@ def r_dir(d):
             h = mk(); h.prepare()
             if h.fromcache or len(h.fileentries) != 3:
                 return {"confirmed": True, "scenario": "cache older than its lifetime was used", "entries": len(h.fileentries)}
+            # ... not even when regenerating the listing fails
+            import errno as _errno
+            real_ld = os.listdir
+
+            def failing_listdir(p_, real=real_ld):
+                if os.path.realpath(os.fsdecode(p_)) == os.path.realpath(top):
+                    raise OSError(_errno.EIO, "Input/output error")
+                return real(p_)
+
+            os.listdir = failing_listdir
+            try:
+                h = mk()
+                try:
+                    h.prepare()
+                    used = bool(h.fromcache)
+                except OSError:
+                    used = False
+            finally:
+                os.listdir = real_ld
+            if used:
+                return {"confirmed": True, "scenario": "a cache file older than its lifetime was served because reading the directory failed (EIO)"}
             # and a fresh one is (with an empty pickled list the listing is empty)
         if "processLinkFile" in name or "getLinkItem" in name or "prepare" in name or "standin" in d.get("kind", ""):
             # metadata edits must show in a regenerated listing (lifetime 0)
@@ -790,6 +871,45 @@ def r_dir(d):
                 os.unlink(cachefile)
             if strip(r1) != strip(r3) or g1 != g2:
                 return {"confirmed": True, "scenario": "the answer to a listing request changed after a Gopher+ listing of the same directory was served from the cache (history dependence)"}
+            # whichever protocol wrote the cache, every reader gets what it would have generated itself
+            reqs = {"gopher": b"/\r\n", "gopher+": b"/\t$\r\n", "http": b"GET / HTTP/1.0\r\n\r\n"}
+            os.makedirs(os.path.join(top, "subdir"), exist_ok=True)
+            open(os.path.join(top, "zero.bin"), "wb").close()
+            open(os.path.join(top, ".Links"), "w").write("Name=An info line\nType=i\nPath=fake\nHost=(NULL)\nPort=0\n")
+            fresh = {}
+            for n_, rq in reqs.items():
+                if os.path.exists(cachefile):
+                    os.unlink(cachefile)
+                fresh[n_] = strip(_serve(rq, cfg)[0])
+            for wn, wrq in reqs.items():
+                for rn, rrq in reqs.items():
+                    if os.path.exists(cachefile):
+                        os.unlink(cachefile)
+                    _serve(wrq, cfg)
+                    got = strip(_serve(rrq, cfg)[0])
+                    if got != fresh[rn]:
+                        return {"confirmed": True, "scenario": "cache written by a %s request, read by a %s request: the listing differs from the one the reader generates itself" % (wn, rn),
+                                "from cache": repr(got[:300]), "fresh": repr(fresh[rn][:300])}
+            os.rmdir(os.path.join(top, "subdir"))
+            os.unlink(os.path.join(top, "zero.bin"))
+            os.unlink(os.path.join(top, ".Links"))
+            if os.path.exists(cachefile):
+                os.unlink(cachefile)
+            # another spelling of the same directory must not change what the cache holds for it
+            if os.path.exists(cachefile):
+                os.unlink(cachefile)
+            hb.rootpath = None; hm.rootpath = None; hm.handlers = None
+            g0, _l = _serve(b"/\r\n", cfg)
+            if os.path.exists(cachefile):
+                os.unlink(cachefile)
+            for other in (b"/.\r\n", b"/./\r\n", b"//\r\n"):
+                _serve(other, cfg)
+                g3, _l = _serve(b"/\r\n", cfg)
+                if g3 != g0:
+                    return {"confirmed": True, "scenario": "after the request %r the listing of / (served within the cache lifetime) is no longer the directory's listing" % other,
+                            "fresh": repr(g0[:160]), "after": repr(g3[:160])}
+                if os.path.exists(cachefile):
+                    os.unlink(cachefile)
         if "savecache" in name or "getdirlist" in name:
             h = mk(); h.prepare(); h.getdirlist()
             m0 = os.stat(cachefile).st_mtime_ns
@@ -961,6 +1081,7 @@ REALISERS.append(("pygopherd/handlers/base.py::VFS_Real.copyto", _first_confirme
 REALISERS.append(("pygopherd/protocols/http.py::HTTPProtocol.handle", lambda d: (r_handle_faults(d) if d.get("kind") != "standin" else (lambda a, b: a if a.get("confirmed") else b)(r_site_crawl(d), r_handle_faults(d)))))
 
 REALISERS.append(("pygopherd/protocols/base.py::BaseGopherProtocol.filenotfound", r_handle_faults))
+REALISERS.append(("pygopherd/protocols/base.py::BaseGopherProtocol.writedir", lambda d: r_handle_faults(dict(d, function="pygopherd/protocols/base.py::BaseGopherProtocol.handle"))))
 REALISERS.append(("pygopherd/handlers/UMN.py::", _first_confirmed(lambda d: r_dir(dict(d, obligation=d.get("obligation", "") + " processLinkFile prepare prep_entries")), r_c01_audit)))
 
 
@@ -1562,13 +1683,21 @@ def r_mail(d):
         out, _l = _serve(b"GET /box.mbox HTTP/1.0\r\n\r\n", cfg)
         if b"<script" in out.lower():
             return {"confirmed": True, "scenario": "a mail subject became markup in the HTML listing"}
+        # every message selector is answered: the listed ones with the message, numbers beyond the end with not-found
+        for num, expect_found in ((1, True), (len(subjects), True), (len(subjects) + 1, False), (99, False), (0, False)):
+            out, logs = _serve(b"/box.mbox|/MBOX-MESSAGE/%d\r\n" % num, cfg)
+            if expect_found and not out.startswith(b"From ") and b"Subject:" not in out:
+                return {"confirmed": True, "scenario": "message %d of %d is listed but not served" % (num, len(subjects)), "response": repr(out[:160]), "log": logs[-1:]}
+            if not expect_found and not out.startswith(b"3"):
+                return {"confirmed": True, "scenario": "request for message %d of a mailbox with %d messages is not answered with a not-found line" % (num, len(subjects)),
+                        "response": repr(out[:160]), "log": logs[-1:]}
         return {"confirmed": None, "note": "mail subjects stay inside their lines"}
     finally:
         shutil.rmtree(top, ignore_errors=True)
         hb.rootpath = None; hm.rootpath = None; hm.handlers = None
 
 
-REALISERS.append(("pygopherd/handlers/mbox.py::MessageHandler.getentry", r_mail))
+REALISERS.append(("pygopherd/handlers/mbox.py::MessageHandler.get", r_mail))
 
 
 # ------------------------------------------------------------------- real sockets, clear text and TLS (C04 stand-in)
@@ -1655,3 +1784,115 @@ def r_real_sockets(d):
 
 _prev_copyto = find("pygopherd/handlers/base.py::VFS_Real.copyto")
 REALISERS.append(("pygopherd/handlers/base.py::VFS_Real.copyto", lambda d: (_first_confirmed(_prev_copyto, r_real_sockets)(d) if d.get("kind") == "standin" else _prev_copyto(d))))
+
+
+# ------------------------------------------------------------------- WAP text-to-WML conversion (C04 stand-in)
+def r_wap(d):
+    """text/plain documents fetched through /wap/: one WML line per LF-delimited source line (escaped, trailing blanks
+    dropped), a paragraph break per empty line - also when a line contains form feeds, lone CRs, VT, FS/GS/RS or the
+    Unicode line separators."""
+    import html as _html, shutil, tempfile
+    import pygopherd.handlers.base as hb
+    import pygopherd.handlers.HandlerMultiplexer as hm
+    top = tempfile.mkdtemp(prefix="pyvc-wap-", dir="/var/tmp")
+    try:
+        cfg = _config({})
+        cfg.set("pygopherd", "root", top)
+        hb.rootpath = None; hm.rootpath = None; hm.handlers = None
+        files = {"plain.txt": b"one\ntwo\n\nthree & <four>\n", "crlf.txt": b"one\r\ntwo\r\n\r\nlast",
+                 "ff.txt": b"Chapter 1\x0cChapter 2\nnext\n", "cr.txt": b"over\rwritten\nline\n", "vt.txt": b"a\x0bb\x1cc\x1dd\x1ee\n",
+                 "uni.txt": "x y z\u0085w\n".encode("utf-8"), "empty.txt": b""}
+        for n, c in files.items():
+            open(os.path.join(top, n), "wb").write(c)
+        for n, c in files.items():
+            out, _l = _serve(b"GET /wap/" + n.encode() + b" HTTP/1.0\r\n\r\n", cfg)
+            head, sep, body = out.partition(b"\r\n\r\n")
+            start = body.find(b"<p>\n")
+            end = body.rfind(b"</p>\n</card>")
+            if not sep or start < 0 or end < 0:
+                return {"confirmed": True, "scenario": "no WML deck for the text file %s" % n, "response": repr(out[:200])}
+            got = body[start + 4:end]
+            want = b""
+            for raw in c.decode("utf-8", "surrogateescape").split("\n"):
+                if raw == "" and want is not None and c.decode("utf-8", "surrogateescape").endswith("\n") and raw is c.decode("utf-8", "surrogateescape").split("\n")[-1]:
+                    continue
+                line = raw.rstrip()
+                want += (_html.escape(line).encode("utf-8", "surrogateescape") + b"\n") if line else b"</p>\n<p>"
+            # the reader stops at end of file: a final empty piece after the last LF is not a line
+            lines = c.decode("utf-8", "surrogateescape").split("\n")
+            if lines and lines[-1] == "":
+                lines = lines[:-1]
+            want = b"".join((_html.escape(l.rstrip()).encode("utf-8", "surrogateescape") + b"\n") if l.rstrip() else b"</p>\n<p>" for l in lines)
+            if got != want:
+                return {"confirmed": True, "scenario": "WML conversion of %s is not one line per source line" % n, "deck": repr(got[:200]), "reference": repr(want[:200])}
+        return {"confirmed": None, "note": "WML conversion agrees with the line-by-line reference"}
+    finally:
+        shutil.rmtree(top, ignore_errors=True)
+        hb.rootpath = None; hm.rootpath = None; hm.handlers = None
+
+
+REALISERS.append(("pygopherd/protocols/wap.py::WAPProtocol.handlerwrite", r_wap))
+
+
+# ------------------------------------------------------------------- damaged ZIP member cache (C11 stand-in)
+def r_zipcache(d):
+    """Every file the ZIP member cache consists of (whatever the dbm backend names them) is cut to prefixes and
+    zero-filled; a request into the archive must then be answered exactly as without any cache."""
+    import glob, shutil, tempfile, zipfile
+    import pygopherd.handlers.base as hb
+    import pygopherd.handlers.HandlerMultiplexer as hm
+    top = tempfile.mkdtemp(prefix="pyvc-zc-", dir="/var/tmp")
+    try:
+        with zipfile.ZipFile(os.path.join(top, "arch.zip"), "w") as z:
+            z.writestr("readme.txt", b"hello\n")
+            z.writestr("docs/a.txt", b"a\n")
+            z.writestr("docs/deep/b.txt", b"b\n")
+        cfg = _config({})
+        cfg.set("pygopherd", "root", top)
+        cfg.set("handlers.ZIP.ZIPHandler", "enabled", "true")
+        cfg.set("handlers.HandlerMultiplexer", "handlers", "[ZIP.ZIPHandler, UMN.UMNDirHandler, file.FileHandler]")
+        cfg.set("handlers.dir.DirHandler", "cachetime", "0")
+
+        def ask():
+            hb.rootpath = None; hm.rootpath = None; hm.handlers = None
+            out = []
+            for rq in (b"/arch.zip\r\n", b"/arch.zip/docs\r\n", b"/arch.zip/docs/deep/b.txt\r\n"):
+                try:
+                    o, logs = _serve(rq, cfg)
+                except BaseException as e:  # noqa
+                    o, logs = b"RAISED " + repr(e).encode(), []
+                out.append((o, [l for l in logs if "EXCEPTION" in l and "FileNotFound" not in l]))
+            return out
+
+        def cachefiles():
+            return sorted(glob.glob(os.path.join(top, ".cache.pygopherd.zip3.*")))
+
+        for f in cachefiles():
+            os.unlink(f)
+        ref = ask()           # no cache yet: this also writes one
+        if any(l for _o, l in ref):
+            return {"confirmed": True, "scenario": "a request into an archive without any cache logs an exception", "log": [l for _o, l in ref if l][:1]}
+        good = {f: open(f, "rb").read() for f in cachefiles()}
+        n = 0
+        for f, data in good.items():
+            cuts = sorted(set(list(range(0, min(len(data), 96))) + list(range(0, len(data), 11)) + [max(len(data) - 1, 0)]))
+            variants = [data[:c] for c in cuts] + [b"\0" * len(data)]
+            for v in variants:
+                for g, gd in good.items():
+                    open(g, "wb").write(gd)
+                    os.utime(g, None)
+                open(f, "wb").write(v)
+                # the cache must look fresh (newer than the archive), otherwise it is rebuilt anyway
+                got = ask()
+                n += 1
+                if [o for o, _l in got] != [o for o, _l in ref] or any(l for _o, l in got):
+                    return {"confirmed": True, "scenario": "member cache file %s cut to %d of %d bytes%s" % (os.path.basename(f), len(v), len(data), " (zero-filled)" if v and not v.strip(b"\0") else ""),
+                            "answers": [repr(o[:100]) for o, _l in got], "reference": [repr(o[:100]) for o, _l in ref], "log": [l for _o, l in got if l][:1]}
+        return {"confirmed": None, "note": "%d damaged-cache variants answered like the cache-less reference" % n}
+    finally:
+        shutil.rmtree(top, ignore_errors=True)
+        hb.rootpath = None; hm.rootpath = None; hm.handlers = None
+
+
+REALISERS.append(("pygopherd/handlers/ZIP.py::VFSZip.init_cache", r_zipcache))
+REALISERS.append(("pygopherd/handlers/ZIP.py::VFSZip.save_cache", r_zipcache))
